@@ -1248,13 +1248,17 @@ class SSHClientProcess(SSHProcess[AnyStr], SSHClientStreamSession[AnyStr]):
 
         recv_buf = self._recv_buf[datatype]
 
+        # Empty the buffer in place, as a blocked reader may be watching it
+
         if recv_buf and isinstance(recv_buf[-1], Exception):
-            recv_buf, self._recv_buf[datatype] = recv_buf[:-1], recv_buf[-1:]
+            output = recv_buf[:-1]
+            del recv_buf[:-1]
         else:
-            self._recv_buf[datatype] = []
+            output = recv_buf[:]
+            recv_buf.clear()
 
         buf = cast(AnyStr, '' if self._encoding else b'')
-        data = buf.join(cast(Iterable[AnyStr], recv_buf))
+        data = buf.join(cast(Iterable[AnyStr], output))
 
         self._recv_buf_len -= len(data)
         self._maybe_resume_reading()
